@@ -121,6 +121,14 @@ func execWriter2(args []string, lines [][]string) []string {
 				w.Before(func(rw flamego.ResponseWriter) {
 					spy.events = append(spy.events, fmt.Sprintf("%s%s:%d", tag, id, rw.Status()))
 				})
+			case len(op) == 2 && op[0] == "bfr":
+				id := op[1]
+				w.Before(func(rw flamego.ResponseWriter) {
+					spy.events = append(spy.events, fmt.Sprintf("%s%s:%d", tag, id, rw.Status()))
+					rw.Before(func(rw2 flamego.ResponseWriter) {
+						spy.events = append(spy.events, fmt.Sprintf("%s9%s:%d", tag, id, rw2.Status()))
+					})
+				})
 			case len(op) == 1 && op[0] == "st":
 				obs = w.Status()
 			case len(op) == 1 && op[0] == "sz":
@@ -196,6 +204,17 @@ func execWriter(args []string, lines [][]string) []string {
 					// what the hook itself observes: nothing has been reported as written yet
 					spy.events = append(spy.events, fmt.Sprintf("hook%s:%d", id, rw.Status()))
 				})
+			case len(l) == 3 && l[1] == "bfr":
+				// a hook that registers ANOTHER hook while the commit is running: the late hook was not registered
+				// before the commit, so it never runs (it would show as hook9<id>), and every hook registered
+				// before still runs exactly once, newest first
+				id := l[2]
+				w.Before(func(rw flamego.ResponseWriter) {
+					spy.events = append(spy.events, fmt.Sprintf("hook%s:%d", id, rw.Status()))
+					rw.Before(func(rw2 flamego.ResponseWriter) {
+						spy.events = append(spy.events, fmt.Sprintf("hook9%s:%d", id, rw2.Status()))
+					})
+				})
 			case len(l) == 2 && l[1] == "st":
 				obs = w.Status()
 			case len(l) == 2 && l[1] == "sz":
@@ -248,6 +267,14 @@ func execWriterFlame(args []string, lines [][]string) []string {
 				id := p[1]
 				w.Before(func(rw flamego.ResponseWriter) {
 					spy.events = append(spy.events, fmt.Sprintf("hook%s:%d", id, rw.Status()))
+				})
+			case p[0] == "bfr" && len(p) == 2:
+				id := p[1]
+				w.Before(func(rw flamego.ResponseWriter) {
+					spy.events = append(spy.events, fmt.Sprintf("hook%s:%d", id, rw.Status()))
+					rw.Before(func(rw2 flamego.ResponseWriter) {
+						spy.events = append(spy.events, fmt.Sprintf("hook9%s:%d", id, rw2.Status()))
+					})
 				})
 			case p[0] == "st":
 				obs = w.Status()
@@ -316,6 +343,9 @@ func writerOp(r *rand.Rand, hook *int) string {
 		return "W fl"
 	case k < 15:
 		*hook++
+		if r.Intn(4) == 0 {
+			return fmt.Sprintf("W bfr %d", *hook)
+		}
 		return fmt.Sprintf("W bf %d", *hook)
 	case k < 17:
 		return "W st"
@@ -328,7 +358,7 @@ func writerOp(r *rand.Rand, hook *int) string {
 
 func genWriter(r *rand.Rand, tier string, emit Emit) {
 	// exhaustive small scope first, then random longer sequences
-	alphabet := []string{"W wh 201", "W wh 404", "W w 3 3", "W w 3 1", "W we 3 2", "W w 0 0", "W fl", "W bf %d", "W st", "W wr", "W wc 3 3"}
+	alphabet := []string{"W wh 201", "W wh 404", "W w 3 3", "W w 3 1", "W we 3 2", "W w 0 0", "W fl", "W bf %d", "W st", "W wr", "W wc 3 3", "W bfr %d"}
 	depth, random := 3, 3000
 	if tier == "thorough" {
 		depth, random = 5, 100000
